@@ -51,33 +51,36 @@ Proof.
     lia.
 Qed.
 
-(* the varint of a non-negative length, followed by anything, determines the length *)
+Lemma marker_inj n1 s1 n2 s2 : marker n1 s1 = marker n2 s2 -> n1 = n2 /\ s1 = s2.
+Proof.
+  unfold marker.
+  destruct (Nat.leb_spec s1 8) as [L1|L1], (Nat.leb_spec s2 8) as [L2|L2], n1, n2; intro Hm; split; try reflexivity; try lia.
+Qed.
+
+Lemma app_inv_length {A} (l1 l2 r1 r2 : list A) :
+  length l1 = length l2 -> l1 ++ r1 = l2 ++ r2 -> l1 = l2 /\ r1 = r2.
+Proof.
+  revert l2; induction l1 as [|x l1 IH]; intros [|y l2] Hl H; simpl in *; try discriminate; auto.
+  injection H as -> H. injection Hl as Hl. destruct (IH l2 Hl H) as [-> ->]. auto.
+Qed.
+
+(* a varint followed by anything determines the number and the rest *)
+Lemma enc_varint_inj n m r1 r2 : enc_varint n ++ r1 = enc_varint m ++ r2 -> n = m /\ r1 = r2.
+Proof.
+  unfold enc_varint. cbn [app]. intro H. injection H as Hm Hrest.
+  apply marker_inj in Hm as [Hneg Hs].
+  apply app_inv_length in Hrest as [Hb Hr]; [|rewrite !be_bytes_length; exact Hs].
+  split; [|exact Hr].
+  apply (f_equal be_val) in Hb. rewrite !be_val_be_bytes in Hb.
+  pose proof (usize_bound (Z.abs_N n)) as B1. pose proof (usize_bound (Z.abs_N m)) as B2.
+  rewrite Hs in Hb, B1. rewrite !N.mod_small in Hb by assumption.
+  destruct (Z.ltb_spec n 0), (Z.ltb_spec m 0); try discriminate; lia.
+Qed.
+
 Lemma enc_varint_nonneg_inj n m r1 r2 :
   (0 <= n)%Z -> (0 <= m)%Z ->
   enc_varint n ++ r1 = enc_varint m ++ r2 -> n = m /\ r1 = r2.
-Proof.
-  intros Hn Hm. unfold enc_varint.
-  destruct (n <? 0)%Z eqn:En; [apply Z.ltb_lt in En; lia|].
-  destruct (m <? 0)%Z eqn:Em; [apply Z.ltb_lt in Em; lia|].
-  cbn [app]. intro H. injection H as Hs Hrest.
-  apply Nat2N.inj in Hs.
-  assert (Hl : length (be_bytes (usize (Z.abs_N n)) (Z.abs_N n)) = length (be_bytes (usize (Z.abs_N m)) (Z.abs_N m)))
-    by (rewrite !be_bytes_length; exact Hs).
-  assert (Hsplit := app_inv_head_iff).
-  assert (Heq : be_bytes (usize (Z.abs_N n)) (Z.abs_N n) = be_bytes (usize (Z.abs_N m)) (Z.abs_N m) /\ r1 = r2).
-  { clear Hsplit. revert Hrest Hl.
-    generalize (be_bytes (usize (Z.abs_N n)) (Z.abs_N n)) (be_bytes (usize (Z.abs_N m)) (Z.abs_N m)).
-    intros l1; induction l1 as [|x l1 IH]; intros [|y l2]; simpl; intros Hr Hlen; try discriminate; auto.
-    injection Hr as -> Hr. injection Hlen as Hlen. destruct (IH _ Hr Hlen) as [-> ->]. auto. }
-  destruct Heq as [Hb ->]. split; [|reflexivity].
-  apply (f_equal be_val) in Hb. rewrite !be_val_be_bytes in Hb.
-  rewrite Hs in Hb.
-  assert (Ha : Z.abs_N n < 256 ^ N.of_nat (usize (Z.abs_N n))) by apply usize_bound.
-  assert (Hc : Z.abs_N m < 256 ^ N.of_nat (usize (Z.abs_N m))) by apply usize_bound.
-  rewrite Hs in Ha.
-  rewrite !N.mod_small in Hb by assumption.
-  lia.
-Qed.
+Proof. intros _ _. apply enc_varint_inj. Qed.
 
 Lemma enc_bs_inj a b r1 r2 : enc_bs a ++ r1 = enc_bs b ++ r2 -> a = b /\ r1 = r2.
 Proof.
